@@ -118,11 +118,58 @@ def run(ck):
             if e[0] == "bin" and e[1] == "Shl" and mir.mentions_field(e, "mem_level") and mir.mentions_const(e, val=6):
                 ok = True
         ck.decide(ok, R, "lit_bufsize", "1 << (mem_level + 6)", "lit_bufsize is not 1 << (memLevel + 6)", where(ini))
+    heuristics(ck, P, ref)
     ck.extra["values_compared"] = n
     ck.extra["exhaustive"] = True
     ck.extra["reference_files"] = ref["files"]
     ck.assumptions += ["oracles/zlibng_ref.json is a faithful extract of libz-sys-1.1.29/src/zlib-ng (hashes recorded)",
                        "rustc const evaluation"]
+
+
+# id -> (rust function regex, [atom patterns that must all occur among the function's branch atoms])
+HEURISTICS_RS = {
+    "slow:filtered-short-match": (r"algorithm::slow::deflate_slow$", [dict(rel="Le", lo_names={"match_len"}, hi_consts={5}), dict(rel="Eq", names={"strategy", "Filtered"})]),
+    "slow:lazy-prev-better": (r"algorithm::slow::deflate_slow$", [dict(rel="Le", lo_names={"STD_MIN_MATCH"}, hi_names={"prev_length"}), dict(rel="Le", lo_names={"match_len"}, hi_names={"prev_length"})]),
+    "slow:lazy-limit": (r"algorithm::slow::deflate_slow$", [dict(rel="Lt", lo_names={"prev_length"}, hi_names={"max_lazy_match"})]),
+    "slow:long-chain-matcher": (r"algorithm::slow::deflate_slow$", [dict(rel="Le", lo_names={"max_chain_length"}, hi_consts={1024})]),
+    "fast:min-match": (r"algorithm::fast::deflate_fast$", [dict(rel="Le", lo_names={"WANT_MIN_MATCH"}, hi_names={"match_len"})]),
+    "fast:insert-limit": (r"algorithm::fast::deflate_fast$", [dict(rel="Le", lo_names={"match_len"}, calls={"State::max_insert_length"}), dict(rel="Le", lo_names={"WANT_MIN_MATCH"}, hi_names={"lookahead"})]),
+    "quick:min-match": (r"algorithm::quick::deflate_quick$", [dict(rel="Le", lo_names={"WANT_MIN_MATCH"}, hi_names={"match_len"})]),
+    "quick:pending-room": (r"algorithm::quick::deflate_quick$", [dict(rel="Le", lo_calls={"State::pending_buf_size"}, hi_names={"BIT_BUF_SIZE", "pending"}, hi_consts={8})]),
+    "rle:min-match": (r"algorithm::rle::deflate_rle$", [dict(rel="Le", lo_names={"STD_MIN_MATCH"}, hi_names={"match_len"})]),
+    "medium:insert-limit": (r"algorithm::medium::insert_match$", [dict(rel="Le", lo_names={"match_length"}, hi_consts={16}, calls={"State::max_insert_length"}), dict(rel="Le", lo_names={"WANT_MIN_MATCH"}, hi_names={"lookahead"})]),
+    "medium:fizzle-256": (r"algorithm::medium::fizzle_matches$", [dict(rel="Le", lo_consts={256}, hi_names={"match_length"})]),
+    "medium:lookahead-next": (r"algorithm::medium::deflate_medium$", [dict(rel="Le", lo_consts={263}, hi_names={"lookahead"})]),
+    "match:good-match-quarter": (r"longest_match::longest_match_help$", [dict(rel="Le", lo_names={"good_match"}, hi_names={"best_len"})]),
+    "match:nice-match": (r"longest_match::longest_match_help$", [dict(rel="Le", lo_names={"nice_match"}, hi_names={"best_len"})]),
+    "match:early-exit": (r"longest_match::longest_match_help$", [dict(rel="Lt", lo_names={"level"}, hi_names={"EARLY_EXIT_TRIGGER_LEVEL"})]),
+}
+
+
+def heuristics(ck, P, ref):
+    """tuning conditions inside the compress functions: the condition text exists in zlib-ng's C source (frozen
+    extract) and the corresponding branch atom exists in the Rust function"""
+    from .. import atoms as _atoms, sig as _sig
+    R = "ATOM/heuristic"
+    cref = ref.get("heuristics", {})
+    for hid, (rx, pats) in HEURISTICS_RS.items():
+        fn = P.one_fn(rx)
+        if not ck.anchor("fn %s (heuristic %s)" % (rx, hid), fn):
+            continue
+        ck.use_fn(fn)
+        ck.decide(cref.get(hid) is True, R, hid + ":reference", "condition present in zlib-ng's source", "the reference condition for %s was not found in the zlib-ng extract" % hid)
+        ss = [_sig.sig(a, fn) for a, b, tb in _atoms.all_atoms(fn)]
+        missing = [p for p in pats if not any(_sig.match(s_, p) for s_ in ss)]
+        if hid == "match:early-exit" and missing:
+            # `early_exit = level < EARLY_EXIT_TRIGGER_LEVEL` is a stored comparison, not a branch
+            for bi, si, lhs, rv, st in fn.assignments():
+                e = fn.rvalue_expr(rv)
+                if e[0] == "bin" and e[1] == "Lt" and mir.mentions_field(e[2], "level") and mir.mentions_const(e[3], defname="EARLY_EXIT_TRIGGER_LEVEL"):
+                    missing = []
+        ck.decide(not missing, R, hid, "branch atom(s) present in %s" % fn.path.split("::")[-1],
+                  "%s no longer tests %s: zlib-ng decides with this condition which bytes are emitted, so outputs diverge for inputs that "
+                  "reach it" % (fn.path, missing), where(fn))
+    ck.floor(R, len(HEURISTICS_RS), 15)
 
 
 def run_thorough(ck):
